@@ -2,7 +2,7 @@ import Percival.Model.WipeLang
 /-!
 # Semantics of clean-up code and the wipe checks (C20)
 
-Three executable judgements over the statement lists regenerated from the C source:
+Four executable judgements over the statement lists regenerated from the C source:
 
 * `ctxWipedAtEnd`   — hash/HMAC `*_Final`: the last thing that happens to the context object is
   that all of it is zeroed (directly, or member by member through `*_Final` calls on each member).
@@ -13,6 +13,10 @@ Three executable judgements over the statement lists regenerated from the C sour
   enumerates every exit path (each failing call jumps to its label *without* the call's effect),
   tracks which objects are live and which hold data derived from the private exponent or the
   blinding value, and records how each object is released.
+* `errorPathsClean`  — the key-expand functions (`crypto_aes_key_expand`, `_aesni`, `_arm`, `crypto_aesctr_alloc/init`):
+  translated with their control flow kept; the set of reachable (position, state of the key object) pairs is computed
+  and checked closed; no plain `free`/`realloc` of the object is reachable while it may hold key-derived data
+  (section 4).
 
 Every function comes as one statement list per preprocessor configuration (`…Configs`); `allConfigs`
 lifts a judgement to all of them.  Two further syntactic rules: `onlyHandledBy` (an object is passed
@@ -230,5 +234,243 @@ def pathsClean (secretParams : List String) (body : List Stmt) : Bool :=
 /-- number of exit paths on which at least one tainted object is released (non-vacuity) -/
 def pathsWithTaintedRelease (secretParams : List String) (body : List Stmt) : Nat :=
   ((paths body { tainted := secretParams } body).filter (fun p => p.st.evs.any (·.tainted))).length
+
+/-! ## 4. key-expand functions: a half-built key object is not released unwiped
+
+The statement lists of these functions come from the *branching* translation (`if/else`, `switch` and loops keep
+their control flow; plain assignments and macro invocations are kept as calls).  A small abstract machine walks them:
+a configuration is a position and what is known about the key object (`KSt`).  Every `.cond` and every call with a
+failure label branches; a failing call jumps *without* its effect (as in `paths`).  The set of reachable
+configurations is computed with fuel and then *checked* to be closed under the step function, so the verdict covers
+every path, loops included. -/
+
+def isIdChar (c : Char) : Bool := c.isAlphanum || c == '_'
+
+def identsAux : List Char → List Char → List String → List String
+  | [], cur, acc => (if cur.isEmpty then acc else String.ofList cur.reverse :: acc).reverse
+  | c :: r, cur, acc =>
+      if isIdChar c then identsAux r (c :: cur) acc
+      else identsAux r [] (if cur.isEmpty then acc else String.ofList cur.reverse :: acc)
+
+/-- the identifiers (and numbers) of a C expression, in order: `kexp->rkeys[0]` ↦ `["kexp", "rkeys", "0"]` -/
+def idents (s : String) : List String := identsAux s.toList [] []
+
+def identsOf (args : List String) : List String := args.flatMap idents
+
+/-- a destination that is a plain variable (assigning it stores nothing through a pointer) -/
+def isPlainIdent (s : String) : Bool := !s.isEmpty && s.toList.all isIdChar
+
+/-- what is known about the key object on a path -/
+inductive KSt where
+  | absent   -- not allocated yet, allocation failed, found null, or released
+  | clean    -- allocated; nothing key-derived stored since the allocation or the last whole-object wipe
+  | dirty    -- may hold key-derived data
+  deriving Repr, DecidableEq
+
+/-- calls that neither write through their arguments nor release them -/
+def inertFns : List String := ["warn0", "warnp", "warn", "warnx", "assert", "strlen", "memcmp"]
+
+/-- release functions that wipe the whole object first (each judged on its own by `freesAreWiped`) -/
+def wipingReleaseFns : List String :=
+  ["crypto_aes_key_free", "crypto_aes_key_free_aesni", "crypto_aes_key_free_arm", "crypto_aesctr_free"]
+
+def iterate {α : Type} (f : α → α) : Nat → α → α
+  | 0, a => a
+  | n + 1, a => iterate f n (f a)
+
+/-- one round of: a plain variable assigned from an expression that mentions an alias is an alias -/
+def aliasStep (body : List Stmt) (al : List String) : List String :=
+  body.foldl (fun acc s => match s with
+    | .call dst _ args _ =>
+        if isPlainIdent dst && !acc.contains dst && (identsOf args).any acc.contains then dst :: acc else acc
+    | _ => acc) al
+
+/-- names through which the object may be reached (flow-insensitive, closed under assignment) -/
+def aliasesOf (obj : String) (body : List Stmt) : List String := iterate (aliasStep body) body.length [obj]
+
+/-- the variable a call may write through this argument: `x` or `&x` -/
+def outParam (a : String) : String :=
+  if isPlainIdent a then a
+  else match a.toList with
+    | '&' :: r => if !r.isEmpty && r.all isIdChar then String.ofList r else ""
+    | _ => ""
+
+/-- one round of: whatever is assigned from, or handed to a call together with, key-derived data is key-derived.
+    The object and its aliases are left out (what they hold is tracked per path), by-value scalars cannot be written
+    by a callee. -/
+def taintStep (al scalars : List String) (body : List Stmt) (t : List String) : List String :=
+  body.foldl (fun acc s => match s with
+    | .call dst fn args _ =>
+        if (identsOf args).any acc.contains then
+          let acc := match (idents dst).head? with
+            | some d => if !al.contains d && !acc.contains d then d :: acc else acc
+            | none => acc
+          if fn != "" && !inertFns.contains fn then
+            args.foldl (fun acc a =>
+              let v := outParam a
+              if v != "" && !al.contains v && !scalars.contains v && !acc.contains v then v :: acc else acc) acc
+          else acc
+        else acc
+    | _ => acc) t
+
+structure KEnv where
+  obj : String
+  aliases : List String
+  tainted : List String      -- key parameters and everything derived from them (flow-insensitive)
+  sizes : List String        -- the size expressions the object is allocated with
+  deriving Repr
+
+def mallocSizes (obj : String) (body : List Stmt) : List String :=
+  (callsOf body).filterMap (fun c => if c.1 == obj && c.2.1 == "malloc" then c.2.2.head? else none)
+
+def mkKEnv (obj : String) (secrets scalars : List String) (body : List Stmt) : KEnv :=
+  let al := aliasesOf obj body
+  { obj := obj, aliases := al,
+    tainted := iterate (taintStep al scalars body) body.length secrets,
+    sizes := mallocSizes obj body }
+
+/-- the effect of one (successful) statement on the key object -/
+inductive Eff where
+  | release      -- the block goes back to the allocator as it is (`free`, or moved by `realloc`)
+  | wipedRelease -- handed to a release function that wipes first
+  | wipe         -- `insecure_memzero(obj, <allocated size>)`
+  | fresh        -- the object variable receives a new block
+  | store        -- key-derived data may be stored into the object
+  | none
+  deriving Repr, DecidableEq
+
+/-- does the statement store key-derived data into the object?  Its arguments mention a key-derived name AND
+    (its destination is not a plain variable — `kexp->nr`, `rkeys[i]`, `*p`: aliasing is not resolved, any such
+    destination counts — OR a function that may write through its arguments is handed the object or an alias). -/
+def storesKey (env : KEnv) (dst fn : String) (args : List String) : Bool :=
+  let ids := identsOf args
+  ids.any env.tainted.contains &&
+    ((dst != "" && !isPlainIdent dst) || (fn != "" && !inertFns.contains fn && ids.any env.aliases.contains))
+
+def effect (env : KEnv) : Stmt → Eff
+  | .call dst fn args _ =>
+      let ids := identsOf args
+      if (fn == "free" || mayReallocFns.contains fn) && ids.any env.aliases.contains then .release
+      else if wipingReleaseFns.contains fn && mentions env.obj args then .wipedRelease
+      else if fn == "insecure_memzero" then
+        (match args with
+         | [a, sz] => if a == env.obj && env.sizes.contains sz then .wipe else .none
+         | _ => .none)
+      else if dst == env.obj then (if fn == "" then .none else .fresh)
+      else if storesKey env dst fn args then .store
+      else .none
+  | _ => .none
+
+def applyEff : KSt → Eff → KSt
+  | _, .release => .absent
+  | _, .wipedRelease => .absent
+  | .absent, .wipe => .absent
+  | _, .wipe => .clean
+  | _, .fresh => .clean
+  | _, .store => .dirty
+  | k, .none => k
+
+/-- position of `.label l` -/
+def labelIdx (l : String) : List Stmt → Nat → Option Nat
+  | [], _ => none
+  | .label l' :: r, i => if l' == l then some i else labelIdx l r (i + 1)
+  | _ :: r, i => labelIdx l r (i + 1)
+
+/-- where a jump to `l` lands (`<return>`: the function returns) -/
+def jumpTarget (prog : List Stmt) (l : String) : Option Nat :=
+  if l == "<return>" then some prog.length else labelIdx l prog 0
+
+def labelsOf : Stmt → List String
+  | .call _ _ _ (some l) => [l]
+  | .cond _ l => [l]
+  | .goto l => [l]
+  | _ => []
+
+/-- every jump has a target -/
+def targetsExist (prog : List Stmt) : Bool :=
+  prog.all (fun s => (labelsOf s).all (fun l => (jumpTarget prog l).isSome))
+
+abbrev KCfg := Nat × KSt
+
+def jumpTo (prog : List Stmt) (l : String) (k : KSt) : List KCfg :=
+  match jumpTarget prog l with
+  | some t => [(t, k)]
+  | none => []
+
+/-- on the branch where `c` holds: the object found null is absent -/
+def assumeK (env : KEnv) (c : String) (k : KSt) : KSt :=
+  if isNullTest c env.obj then .absent else k
+
+/-- successor configurations (none: the function has returned) -/
+def succs (env : KEnv) (prog : List Stmt) (c : KCfg) : List KCfg :=
+  match prog[c.1]? with
+  | none => []
+  | some .ret => []
+  | some (.label _) => [(c.1 + 1, c.2)]
+  | some (.goto l) => jumpTo prog l c.2
+  | some (.cond cnd l) => jumpTo prog l (assumeK env cnd c.2) ++ [(c.1 + 1, c.2)]
+  | some (.call dst fn args fail) =>
+      (match fail with
+       | some l => jumpTo prog l c.2
+       | none => []) ++ [(c.1 + 1, applyEff c.2 (effect env (.call dst fn args fail)))]
+
+/-- the violation: the statement at this position releases the object while it may hold key-derived data -/
+def badAt (env : KEnv) (prog : List Stmt) (c : KCfg) : Bool :=
+  match prog[c.1]? with
+  | some s => c.2 == .dirty && effect env s == .release
+  | none => false
+
+/-- collect the configurations reachable from `todo` (fuel: each round either drops a known one or adds a new one) -/
+def explore (env : KEnv) (prog : List Stmt) : Nat → List KCfg → List KCfg → Option (List KCfg)
+  | 0, _, _ => none
+  | _ + 1, [], seen => some seen
+  | f + 1, c :: todo, seen =>
+      if seen.contains c then explore env prog f todo seen
+      else explore env prog f (succs env prog c ++ todo) (c :: seen)
+
+def exploreFuel (prog : List Stmt) : Nat := 16 * (prog.length + 2)
+
+def startCfg : KCfg := (0, .absent)
+
+/-- The paths the abstract machine of `errorPathsClean` can take through a statement list: start at the first
+    statement with no key object, follow `succs` (both branches of every `.cond`, the failure jump — without the
+    call's effect — and the success of every call with a failure label, every `goto`, back edges of loops included). -/
+inductive KReach (env : KEnv) (prog : List Stmt) : KCfg → Prop where
+  | start : KReach env prog startCfg
+  | step {c c' : KCfg} : KReach env prog c → c' ∈ succs env prog c → KReach env prog c'
+
+/-- `r` contains the start and is closed under `succs` -/
+def closedSet (env : KEnv) (prog : List Stmt) (r : List KCfg) : Bool :=
+  r.contains startCfg && r.all (fun c => (succs env prog c).all r.contains)
+
+def reachSet (env : KEnv) (prog : List Stmt) : Option (List KCfg) :=
+  match explore env prog (exploreFuel prog) [startCfg] [] with
+  | some r => if closedSet env prog r then some r else none
+  | none => none
+
+/-- the judgement: on every path through the function, a release of the object (`free`, `realloc`) never happens
+    while it may hold key-derived data, and all jump targets exist -/
+def errorPathsClean (obj : String) (secrets scalars : List String) (body : List Stmt) : Bool :=
+  let env := mkKEnv obj secrets scalars body
+  targetsExist body &&
+  match reachSet env body with
+  | some r => r.all (fun c => !badAt env body c)
+  | none => false
+
+/-- non-vacuity: some path returns with a loaded object (the key parameter really is stored), and some path releases
+    the object (there is an error path to judge) -/
+def returnsLoadedObject (obj : String) (secrets scalars : List String) (body : List Stmt) : Bool :=
+  let env := mkKEnv obj secrets scalars body
+  match reachSet env body with
+  | some r => r.any (fun c => c.2 == .dirty && body[c.1]? == some .ret)
+  | none => false
+
+def releasesOnSomePath (obj : String) (secrets scalars : List String) (body : List Stmt) : Bool :=
+  let env := mkKEnv obj secrets scalars body
+  match reachSet env body with
+  | some r => r.any (fun c => match body[c.1]? with
+      | some s => effect env s == .release
+      | none => false)
+  | none => false
 
 end Percival.Model.Wipe
